@@ -103,6 +103,9 @@ def run_shard(sh, rec):
             xr_idx = cnt % len(XR)
         xr = XR[int(rng.integers(len(XR)))] if (tier == "thorough" and c["rep"] > 0) else XR[xr_idx]
         nu = float(10 ** rng.uniform(-4, 0))
+        if c["cid"] % 7 == 3:
+            nu = 0.0  # inviscid run (the Hill's vortex example): the diffusion stage contributes exactly nothing
+            rec.count("simulators_with_zero_viscosity")
         rho = float(10 ** rng.uniform(-2, 2))
         t0 = float(rng.choice([0.0, 0.25, 17.5]))
         cfg = dict(kind=kind, shape=shape, x_range=xr, nu=nu, dtype=c["dtype"], threads=2, forcing=c.get("forcing", False),
